@@ -421,6 +421,69 @@ theorem join_bonds_partial {n cls : Nat} {s1 s2 : MolO} (i1 i2 : Nat) (sc bf co 
   rw [key]
   simp [obsBond, Ents.strip]
 
+/-- the atom objects of the fragments that remain in the product, in order -/
+def remaining (s1 s2 : MolO) (i1 i2 : Nat) : List Nat :=
+  (s1.atoms.eraseIdx i1 ++ s2.atoms.eraseIdx i2).map (·.id)
+
+/-- **faithful** for `join`, bonds: the product has the bonds of the fragments that do not touch an
+attachment point, each joining the copies of the atoms it joined (end positions = positions of those
+atoms among the remaining atoms), with its fields, attributes and the product as parent; then the new
+bond between the atoms the attachment points were bonded to. -/
+theorem join_bonds_faithful {n cls : Nat} {s1 s2 : MolO} (h1 : WF s1) (h2 : WF s2) (b1 : Below n s1) (b2 : Below n s2)
+    (i1 i2 : Nat) (sc bf co : List Int) :
+    (observe (join repaired n cls s1 s2 i1 i2 sc bf co)).bonds =
+      (s1.bonds.filter (fun b => !touches (((s1.atoms[i1]?).map (·.id)).getD 0) b) ++
+        s2.bonds.filter (fun b => !touches (((s2.atoms[i2]?).map (·.id)).getD 0) b)).map
+          (obsBondT (remaining s1 s2 i1 i2)) ++
+      [{ e1 := (remaining s1 s2 i1 i2).idxOf ((partner s1.bonds (((s1.atoms[i1]?).map (·.id)).getD 0)).getD 0),
+         e2 := (remaining s1 s2 i1 i2).idxOf ((partner s2.bonds (((s2.atoms[i2]?).map (·.id)).getD 0)).getD 0),
+         fields := bf, attrib := .nil, parentOk := true }] := by
+  have hl : (remaining s1 s2 i1 i2).length =
+      ((copyAtoms repaired n (n + 2 + 1) (s1.atoms.eraseIdx i1 ++ s2.atoms.eraseIdx i2)).map (·.id)).length := by
+    simp [remaining, copyAtoms_length]
+  have hnd := copyAtoms_ids_nodup repaired n (s1.atoms.eraseIdx i1 ++ s2.atoms.eraseIdx i2) (n + 2 + 1)
+  -- every identity below the counter is not one of the new atoms
+  have hnew : ∀ x, x < n + 3 →
+      x ∉ (copyAtoms repaired n (n + 2 + 1) (s1.atoms.eraseIdx i1 ++ s2.atoms.eraseIdx i2)).map (·.id) := by
+    intro x hx hm
+    have := copyAtoms_ids_ge repaired n _ _ _ hm
+    omega
+  have hend1 : ∀ b ∈ s1.bonds, b.a1 < n ∧ b.a2 < n := fun b hb =>
+    ⟨b1 _ (atom_id_mem_reach (h1.bondEnds b hb).1), b1 _ (atom_id_mem_reach (h1.bondEnds b hb).2)⟩
+  have hend2 : ∀ b ∈ s2.bonds, b.a1 < n ∧ b.a2 < n := fun b hb =>
+    ⟨b2 _ (atom_id_mem_reach (h2.bondEnds b hb).1), b2 _ (atom_id_mem_reach (h2.bondEnds b hb).2)⟩
+  have hends : ∀ b ∈ s1.bonds.filter (fun b => !touches (((s1.atoms[i1]?).map (·.id)).getD 0) b) ++
+        s2.bonds.filter (fun b => !touches (((s2.atoms[i2]?).map (·.id)).getD 0) b),
+      (b.a1 ∈ remaining s1 s2 i1 i2 ∨
+        b.a1 ∉ (copyAtoms repaired n (n + 2 + 1) (s1.atoms.eraseIdx i1 ++ s2.atoms.eraseIdx i2)).map (·.id)) ∧
+      (b.a2 ∈ remaining s1 s2 i1 i2 ∨
+        b.a2 ∉ (copyAtoms repaired n (n + 2 + 1) (s1.atoms.eraseIdx i1 ++ s2.atoms.eraseIdx i2)).map (·.id)) := by
+    intro b hb
+    rcases List.mem_append.mp hb with hb | hb
+    · have := hend1 b (List.mem_filter.mp hb).1
+      exact ⟨Or.inr (hnew _ (by omega)), Or.inr (hnew _ (by omega))⟩
+    · have := hend2 b (List.mem_filter.mp hb).1
+      exact ⟨Or.inr (hnew _ (by omega)), Or.inr (hnew _ (by omega))⟩
+  -- the partners of the attachment points are bond ends (or the default 0): below the counter as well
+  have hpart : ∀ (s : MolO) (x : Nat), (∀ b ∈ s.bonds, b.a1 < n ∧ b.a2 < n) → (partner s.bonds x).getD 0 < n + 3 := by
+    intro s x hb
+    unfold partner
+    cases hf : s.bonds.find? (touches x) with
+    | none => simp
+    | some b =>
+      have := hb b (List.mem_of_find?_eq_some hf)
+      simp only [Option.map_some, Option.getD_some]
+      split <;> omega
+  have e := obs_copyBonds n _ _ hl hnd _ hends
+    (n + 2 + 1 + atomsSize (s1.atoms.eraseIdx i1 ++ s2.atoms.eraseIdx i2) + 1)
+  have k1 := idxOf_mapAtom hl hnd _ (Or.inr (hnew _ (hpart s1 (((s1.atoms[i1]?).map (·.id)).getD 0) hend1)))
+  have k2 := idxOf_mapAtom hl hnd _ (Or.inr (hnew _ (hpart s2 (((s2.atoms[i2]?).map (·.id)).getD 0) hend2)))
+  simp only [observe, join]
+  unfold remaining at e k1 k2 ⊢
+  rw [List.map_append, e]
+  simp only [List.map_cons, List.map_nil, obsBond, k1, k2, Ents.strip]
+  simp
+
 /-! ## non-vacuity -/
 
 /-- a 3-atom molecule (Molecule: coordinates and charges) with nested attribute containers on the molecule,
